@@ -36,16 +36,19 @@ class Harness:
         return failure.get("cls")
 
 
-def run_harness(h, tier, seed, budget_s=None, max_failures=25):
+def run_harness(h, tier, seed, budget_s=None, max_failures=25, shard=(0, 1)):
     t0 = time.time()
     evaluations = 0
+    h.cases = 0
     keys = set()
     failures = []
     samples = []
     crashed = None
     truncated = False
     try:
-        for inp in h.inputs(tier, seed):
+        for idx, inp in enumerate(h.inputs(tier, seed)):
+            if idx % shard[1] != shard[0]:
+                continue
             evaluations += 1
             k = h.nontrivial_key(inp)
             if k is not None:
@@ -67,9 +70,11 @@ def run_harness(h, tier, seed, budget_s=None, max_failures=25):
                 break
     except Exception:
         crashed = traceback.format_exc()[-2000:]
+    inner = getattr(h, "cases", 0)
     return {
+        "inputs": evaluations, "cases": inner,
         "harness": h.name, "prop": h.prop, "functions": list(h.functions), "bound": h.bound.get(tier, ""),
-        "rule": h.rule, "evaluations": evaluations, "distinct_nontrivial": len(keys),
+        "rule": h.rule, "evaluations": inner or evaluations, "distinct_nontrivial": len(keys),
         "exhaustive": bool(h.exhaustive and not truncated and crashed is None),
         "failures": failures, "samples": samples, "crashed": crashed, "seconds": round(time.time() - t0, 2),
     }
